@@ -195,6 +195,18 @@ class DataArray:
     def __len__(self):
         return self.shape[0]
 
+    def __getattr__(self, name):
+        # coordinate access by attribute (agg.x), as xarray allows
+        if name.startswith('_') or name in ('dims', 'coords', 'attrs', 'name'):
+            raise AttributeError(name)
+        try:
+            coords = object.__getattribute__(self, 'coords')
+        except AttributeError:
+            raise AttributeError(name)
+        if name in coords:
+            return coords[name]
+        raise AttributeError(name)
+
     def _sx_array_(self):
         return self.values
 
@@ -284,7 +296,17 @@ class DataArray:
         if isinstance(key[0], dict):
             return self.isel(key[0])
         key = tuple(key) + (slice(None),) * (self.ndim - len(key))
-        data = self._data[key]
+        nlist = sum(1 for k in key if isinstance(k, (list, SymArray, _np.ndarray)))
+        if nlist > 1:
+            # xarray indexes orthogonally (outer product of the per-dimension selections)
+            data = self._data
+            for ax, k in enumerate(key):
+                if isinstance(k, (list, SymArray, _np.ndarray)):
+                    data = data[(slice(None),) * ax + (k,)]
+            rest = tuple(k if not isinstance(k, (list, SymArray, _np.ndarray)) else slice(None) for k in key)
+            data = data[rest]
+        else:
+            data = self._data[key]
         newdims = []
         newcoords = {}
         for d, k in zip(self.dims, key):
